@@ -203,3 +203,42 @@ func W7Generated(n int, seed int64, sink Sink) {
 		sink(c)
 	}
 }
+
+// W7Positions: plain strings of every length 1..maxLen with one special element (escape,
+// control byte, quote, high byte, \\u escape, surrogate pair) at every offset, and a second one
+// at a few later offsets: scanners with chunked or unrolled fast paths are position sensitive.
+func W7Positions(maxLen int, sink Sink) {
+	c := &h.Case{Family: "W7p"}
+	specials := []string{`\n`, `\"`, `\\`, "\x1f", "\x00", `"`, "\xff", "\xc3\xa9", `\u00e9`, `\ud83d\ude00`, `\ud800`, `\`, `\x`, "\x7f", "\x20"}
+	fill := "abcdefghijklmnopqrstuvwxyz0123456789ABCDEFGHIJKLMNOPQRSTUVWXYZ-_.,;:!?()[]{}"
+	c.DescFn = func(c *h.Case) string {
+		return fmt.Sprintf("plain string of length %d with %q at offset %d and a second special at %d", c.P[0], specials[c.P[1]], c.P[2], c.P[3])
+	}
+	buf := make([]byte, 0, 256)
+	for L := 1; L <= maxLen; L++ {
+		for si, sp := range specials {
+			for pos := 0; pos <= L; pos++ {
+				for second := -1; second <= L; second += 1 + L/4 {
+					if second >= 0 && second < pos {
+						continue
+					}
+					buf = append(buf[:0], '"')
+					buf = append(buf, fill[:pos]...)
+					buf = append(buf, sp...)
+					if second >= pos {
+						buf = append(buf, fill[pos:second]...)
+						buf = append(buf, specials[(si+5)%len(specials)]...)
+						buf = append(buf, fill[second:L]...)
+					} else {
+						buf = append(buf, fill[pos:L]...)
+					}
+					buf = append(buf, '"')
+					c.Input = buf
+					c.Desc = ""
+					c.P = [4]int{L, si, pos, second}
+					sink(c)
+				}
+			}
+		}
+	}
+}
